@@ -175,19 +175,6 @@ def sizeLine (name : Bytes) (size prev : Nat) : Option Bytes :=
   else some (S "Size: " ++ name ++ S " " ++ formatSize size ++ S " (" ++ [if size < prev then 45 else 43] ++
     formatSize deltaAbs ++ S ")")
 
-/-- byte-wise `strcmp` order -/
-def bytesLt : Bytes → Bytes → Bool
-  | [], [] => false
-  | [], _ :: _ => true
-  | _ :: _, [] => false
-  | a :: as, b :: bs => if a < b then true else if b < a then false else bytesLt as bs
-
-def insertSorted (x : Bytes) : List Bytes → List Bytes
-  | [] => [x]
-  | y :: ys => if bytesLt y x then y :: insertSorted x ys else x :: y :: ys
-
-def sortBytes (l : List Bytes) : List Bytes := l.foldr insertSorted []
-
 def statsSizes (e : Env) : Bytes :=
   if e.mode = .robsd ∧ e.hasPrev then
     let ls := e.sizes.filterMap (fun p => sizeLine p.1 p.2.1 p.2.2)
